@@ -784,6 +784,119 @@ def rule_r10(chk, p, t):
         "the epoch-key sources of every stored row (Agent / ScenarioClock julian_date_epoch, datetime_epoch, time)",
     )
 
+def rule_r11(chk, p, t):
+    r = chk.rule(
+        "C09.R11",
+        "one clock per agent: job target times come from the registrant's own time",
+        4,
+        "every row an agent writes is stamped with the agent's `time`, which processResults copies from the job result; "
+        "the result's time is the target time of the submission.  So every submission field typed ScenarioTime must be "
+        "built from the registrant's own clock - `self._registrant.time` (start) or `self._registrant.time + "
+        "self._registrant.dt_step` (target) - and never from another object's clock (a filter's, a sensor's): an object "
+        "that joined the scenario late, or was rebuilt, carries a different time and the rows it produces land on "
+        "other epochs than the rest of the step.  Likewise every object an agent builder creates with a time argument "
+        "receives the same clock expression the agent itself starts from (`clock.time`, Agent.__init__)",
+        "the numeric values of the times",
+    )
+    PAR = "resonaate.parallel."
+    n_fields = 0
+    for mod in sorted(p.modules.values(), key=lambda m: m.name):
+        if not mod.name.startswith(PAR):
+            continue
+        # submission classes: annotated fields typed ScenarioTime
+        tfields = {}
+        for ci in mod.classes.values():
+            names = [k for k, a in ci.class_annots.items() if "ScenarioTime" in unparse(a) and "None" not in unparse(a)]
+            if names:
+                tfields[ci.name] = names
+        if not tfields:
+            continue
+        for ci in mod.classes.values():
+            gen = ci.methods.get("generateSubmission")
+            if gen is None:
+                continue
+
+            def one(ci=ci, gen=gen, tfields=tfields):
+                nonlocal n_fields
+                ctors = [c for c in walk_no_nested(gen.node) if isinstance(c, ast.Call) and call_name(c) in tfields]
+                require(ctors, f"{ci.name}.generateSubmission builds no submission with a time field", gen.node)
+                for c in ctors:
+                    cname = call_name(c)
+                    sub_ci = next(x for x in mod.classes.values() if x.name == cname)
+                    order = list(sub_ci.class_annots)
+                    for fld in tfields[cname]:
+                        val = next((k.value for k in c.keywords if k.arg == fld), None)
+                        if val is None and fld in order and order.index(fld) < len(c.args):
+                            val = c.args[order.index(fld)]
+                        require(val is not None, f"{cname}.{fld} is not passed", c)
+                        e = inline_locals(gen, val)
+                        txt = unparse(e)
+                        n_fields += 1
+                        ok = txt in ("self._registrant.time", "self._registrant.time + self._registrant.dt_step", "self._registrant.dt_step + self._registrant.time")
+                        if ok:
+                            r.ok(f"{ci.qualname}:{fld}", txt, gen.loc(c))
+                        elif ".time" in txt or "time" in txt:
+                            r.violation(
+                                ci.qualname,
+                                f"job-time:{fld}={txt[:60]}",
+                                f"{ci.name}.generateSubmission sets {cname}.{fld} = `{txt}`: the job's time is not the registrant's own "
+                                "`time` (+ `dt_step`); the result time is copied into the agent and stamps its rows, so an object whose clock "
+                                "differs from the agent's (joined late, rebuilt) shifts every row of that agent to other epochs",
+                                gen.loc(c),
+                            )
+                        else:
+                            r.undecided(f"{ci.qualname}:{fld}", f"time field built from `{txt}`", gen.loc(c))
+
+            r.guard(ci.qualname, one)
+    # agent builders: every time argument is the clock's current time
+    base = p.cls("resonaate.agents.agent_base.Agent")
+    init = base.methods.get("__init__")
+
+    def clock_expr():
+        for n in walk_no_nested(init.node):
+            if isinstance(n, ast.Assign) and len(n.targets) == 1 and unparse(n.targets[0]) == "self._time":
+                return unparse(n.value)
+        raise Undecided("Agent.__init__ does not set self._time", init.node)
+
+    want = clock_expr()
+    for ci in p.subclasses(base, include_self=False):
+        fc = ci.methods.get("fromConfig")
+        if fc is None:
+            continue
+
+        def two(ci=ci, fc=fc):
+            for c in walk_no_nested(fc.node):
+                if not isinstance(c, ast.Call):
+                    continue
+                callee = None
+                nm = call_name(c)
+                cands = [f for f in p.all_functions() if f.name == nm and f.cls is None]
+                if len(cands) == 1:
+                    callee = cands[0]
+                if callee is None:
+                    continue
+                for i, prm in enumerate(callee.params):
+                    ann = callee.param_annotation(prm)
+                    if ann is None or "ScenarioTime" not in unparse(ann) or prm in ("time_step", "dt_step"):
+                        continue
+                    arg = c.args[i] if i < len(c.args) else next((k.value for k in c.keywords if k.arg == prm), None)
+                    if arg is None:
+                        continue
+                    txt = unparse(inline_locals(fc, arg))
+                    if txt == want:
+                        r.ok(f"{ci.qualname}.fromConfig:{nm}.{prm}", txt, fc.loc(c))
+                    else:
+                        r.violation(
+                            ci.qualname,
+                            f"builder-time:{nm}.{prm}={txt[:50]}",
+                            f"{ci.name}.fromConfig passes `{txt}` as `{prm}` of {nm}(): the agent itself starts at `{want}` (Agent.__init__); for "
+                            "an agent added to a running scenario the two differ and the object's epochs no longer match the agent's",
+                            fc.loc(c),
+                        )
+
+        r.guard(ci.qualname + ".fromConfig", two)
+
+
 def run(chk, p, t):
     chk.explanation = (
         "Static decision of structural necessary conditions of C09: (R1) every row built on a run path is keyed by a "
@@ -796,7 +909,7 @@ def run(chk, p, t):
         "step / output-step combinations."
     )
     chk.assumptions += ["SQLAlchemy session semantics (commit / rollback / close)", "SQLite does not enforce the declared foreign keys (hence the static obligation)", "rows loaded from the importer are epoch aligned (external input)"]
-    steps = [("C09.R1", rule_r1), ("C09.R2", rule_r2), ("C09.R3", rule_r3), ("C09.R4", rule_r4), ("C09.R5", rule_r5), ("C09.R6", rule_r6_r7), ("C09.R8", rule_r8), ("C09.R9", rule_r9), ("C09.R10", rule_r10)]
+    steps = [("C09.R1", rule_r1), ("C09.R2", rule_r2), ("C09.R3", rule_r3), ("C09.R4", rule_r4), ("C09.R5", rule_r5), ("C09.R6", rule_r6_r7), ("C09.R8", rule_r8), ("C09.R9", rule_r9), ("C09.R10", rule_r10), ("C09.R11", rule_r11)]
     for rid, fn in steps:
         if chk.only_rule is not None and chk.only_rule != rid and not (chk.only_rule == "C09.R7" and rid == "C09.R6"):
             continue
